@@ -14,7 +14,7 @@ LEVEL = "exploration"
 RULE = ("every algorithm (11 partitioners, 5 packers, 3 coverers; exact ones inside the cost envelope) x generated inputs of the C01/C03/C05 classes; "
         "each case is executed with all 10 output types; non-trivial = at least two bins with different sums; distinct on (algorithm, config, size, value sequence)")
 ASSUMPTIONS = ["largest/smallest/extreme/difference are undefined for zero bins and skipped there", "bin-completion with list/array presentation (names: C07)"]
-FLOORS = {"quick": {"distinct_nontrivial": 3000}, "thorough": {"distinct_nontrivial": 30000}}
+FLOORS = {"quick": {"distinct_nontrivial": 800}, "thorough": {"distinct_nontrivial": 4000}}
 SUMS_TYPES = ("Sums", "SortedSums", "LargestSum", "SmallestSum", "ExtremeSums", "Difference", "BinCount")
 
 
